@@ -459,31 +459,25 @@ theorem addLoad_sdGet_ne (g : GcS α) (k k' : String) (x : α) (h : k ≠ k') :
       · rfl
       · exact ih
 
-theorem chargeVehicles_keys (ops : BatOps α B) (t0 : α) (k : String) :
-    ∀ (plans : List (PVeh α B × α)) (st st' : PWorld α B × GcS α × List (String × α)),
-      (∀ q ∈ plans, q.1.v.cs ≠ some k) → chargeVehicles ops t0 plans st = .ok st' →
+theorem chargeVehicles_keys (ops : BatOps α B) (k : String) :
+    ∀ (plans : List (PVeh α B × α)) (surplus : α) (st st' : PWorld α B × GcS α × List (String × α)),
+      (∀ q ∈ plans, q.1.v.cs ≠ some k) → chargeVehicles ops plans surplus st = .ok st' →
       sdGet st'.2.1.loads k = sdGet st.2.1.loads k := by
   intro plans
   induction plans with
-  | nil => intro st st' _ h; simp only [chargeVehicles, Except.ok.injEq] at h; subst h; rfl
+  | nil => intro surplus st st' _ h; simp only [chargeVehicles, Except.ok.injEq] at h; subst h; rfl
   | cons q rest ih =>
-    intro st st' hq h
-    obtain ⟨pv, sched⟩ := q
+    intro surplus st st' hq h
+    obtain ⟨pv, planned⟩ := q
     obtain ⟨w, gc, cmds⟩ := st
-    unfold chargeVehicles at h
-    simp only at h
-    split at h
-    · split at h
-      · cases h
-      · rename_i csId hcs
-        obtain ⟨x, hx, hb⟩ := bind_ok h
-        obtain ⟨bat', p⟩ := x
-        have hne : csId ≠ k := fun e => hq (pv, sched) (by simp) (by rw [hcs, e])
-        have := ih _ _ (fun q' hq' => hq q' (List.mem_cons_of_mem _ hq')) hb
-        simp only at this ⊢
-        rw [this]
-        exact addLoad_sdGet_ne gc csId k p hne
-    · have := ih _ _ (fun q' hq' => hq q' (List.mem_cons_of_mem _ hq')) h
+    obtain ⟨csId, sched, hcs, hso, hcase⟩ := chargeVehicles_cons ops pv planned rest surplus w gc cmds st' h
+    rcases hcase with ⟨_, bat', p, _, hrec⟩ | ⟨_, hrec⟩
+    · have hne : csId ≠ k := fun e => hq (pv, planned) (by simp) (by rw [hcs, e])
+      have := ih _ _ _ (fun q' hq' => hq q' (List.mem_cons_of_mem _ hq')) hrec
+      simp only at this ⊢
+      rw [this]
+      exact addLoad_sdGet_ne gc csId k p hne
+    · have := ih _ _ _ (fun q' hq' => hq q' (List.mem_cons_of_mem _ hq')) hrec
       exact this
 
 theorem foldl_setBattery_gcs (done : List (StatBatS α B)) :
@@ -492,7 +486,8 @@ theorem foldl_setBattery_gcs (done : List (StatBatS α B)) :
   | nil => intro w; rfl
   | cons b rest ih => intro w; simp only [List.foldl_cons]; rw [ih]; rfl
 
-/-- one `step_gc` call with stationary batteries, no surplus, and `self.peak_power` within the limit -/
+/-- one `step_gc` call with stationary batteries and no surplus (repaired in-window branch: the batteries work
+against `min(self.peak_power, cur_max_power)`) -/
 theorem stepGc_limit_bat (ops : BatOps α B) (law : BatLaw ops) (idem : LoadIdem ops) (env : PEnv α)
     (hi : 0 < env.interval) (hsum : ∀ l, env.sum l = l.sum) (w : PWorld α B) (g : PGc α) (level : String)
     (w' : PWorld α B) (cmds : List (String × α))
@@ -500,7 +495,7 @@ theorem stepGc_limit_bat (ops : BatOps α B) (law : BatLaw ops) (idem : LoadIdem
     (hbkey : ∀ b ∈ w.batteries, (b.parent == g.gc.id) = true → sdGet g.gc.loads b.id = none)
     (hbcs : ∀ b ∈ w.batteries, (b.parent == g.gc.id) = true → ∀ pv ∈ w.vehicles, pv.v.cs ≠ some b.id)
     (hbmin : ∀ b ∈ w.batteries, (b.parent == g.gc.id) = true → 0 ≤ b.minChargingPower)
-    (hpk0 : 0 ≤ g.peak) (hpk : g.peak ≤ g.gc.curMax)
+    (hpk0 : 0 ≤ g.peak)
     (hs : 0 ≤ g.gc.currentLoad) (hlim : g.gc.currentLoad ≤ g.gc.curMax)
     (h : stepGc ops env w g level = .ok (w', cmds)) :
     ∀ g' ∈ w'.gcs, g'.gc.id = g.gc.id →
@@ -538,7 +533,12 @@ theorem stepGc_limit_bat (ops : BatOps α B) (law : BatLaw ops) (idem : LoadIdem
   rw [hhead] at hts0
   have hp0 : ts0.power = sumLoads env g.gc.loads + s := by rw [← Option.some.inj hts0]
   have hts0p : 0 ≤ ts0.power := by rw [hp0, hbase]; linarith
-  obtain ⟨c1, c2, c3⟩ := chargeVehicles_sum ops law ts0.power hts0p plans s _ _ hps hc
+  have hsur : -(pymin ts0.power 0) = 0 := by rw [pymin_eq, min_eq_right hts0p]; ring
+  rw [hsur] at hc
+  obtain ⟨c, hc0, hcle, c1, c2, c3⟩ := chargeVehicles_sum ops law plans s 0 _ _ (le_refl _)
+    (fun h => absurd h (lt_irrefl _)) hps hc
+  have hcz : c = 0 := le_antisymm hcle hc0
+  rw [hcz, add_zero] at c1
   simp only at c1 c2 c3 hsle
   rw [hbase] at hsle
   -- the plans belong to vehicles of the world
@@ -552,7 +552,7 @@ theorem stepGc_limit_bat (ops : BatOps α B) (law : BatLaw ops) (idem : LoadIdem
   have hkeys : ∀ b ∈ bats, sdGet gc1.loads b.id = none := by
     intro b hb
     obtain ⟨hbw, hbp⟩ := hbm b hb
-    have := chargeVehicles_keys ops ts0.power b.id plans _ _ (fun q hq => by
+    have := chargeVehicles_keys ops b.id plans _ _ _ (fun q hq => by
       obtain ⟨hqs, _⟩ := hplans q hq
       exact hbcs b hbw hbp q.1 (hgs q.1 (mem_sortByKey _ _ _ hqs)).1) hc
     simp only at this
@@ -560,15 +560,16 @@ theorem stepGc_limit_bat (ops : BatOps α B) (law : BatLaw ops) (idem : LoadIdem
     exact hbkey b hbw hbp
   -- first battery loop
   have htot1 : tot gc1.loads = gc1.currentLoad := by rw [currentLoad_eq_sum]; rfl
-  obtain ⟨tr, t1, t2, t3, t4, t5, t6⟩ := planBatteries_spec ops law env hsum _ g.peak gc1.curMax untilChange
+  obtain ⟨tr, t1, t2, t3, t4, t5, t6⟩ := planBatteries_spec ops law env hsum _ (pymin g.peak gc1.curMax) gc1.curMax untilChange
     bats gc1.loads [] L1 info1 hbid hkeys (fun b hb => hbmin b (hbm b hb).1 (hbm b hb).2) h5
   have hnd : (tr.map (·.1.id)).Nodup := by
     have : tr.map (·.1.id) = (tr.map (·.1)).map (·.id) := by simp
     rw [this, t1]; exact hbid
   have hL0 : 0 ≤ tot gc1.loads := by rw [htot1, c1]; linarith
   have hLle : tot gc1.loads ≤ gc1.curMax := by rw [htot1, c1, c2]; exact hsle
-  have h10 : 0 ≤ tot L1 := t5 hpk0 hL0
-  have h1le : tot L1 ≤ gc1.curMax := t6 (by rw [c2]; exact hpk) hLle
+  have hcm0 : 0 ≤ gc1.curMax := by rw [c2]; exact le_trans hs hlim
+  have h10 : 0 ≤ tot L1 := t5 (by rw [pymin_eq]; exact le_min hpk0 hcm0) hL0
+  have h1le : tot L1 ≤ gc1.curMax := t6 (by rw [pymin_eq]; exact min_le_right _ _) hLle
   -- second battery loop
   rw [← t1] at h6
   simp only [List.nil_append] at t2
